@@ -75,6 +75,9 @@ def build_shot(p: Dict[str, Any]):
                       p.get("humidity", 0.0))
     # until-distances are handed over in rotating units (the library must order them by distance, not by number)
     def until(i, ft):
+        if p.get("wind_units", True) and (i % 4 == 3 or (ft == 0.0 and i % 2 == 0)):
+            # a BARE number: that many of the preferred distance unit in force now (a segment ending at 0 is given as plain 0)
+            return U.Foot(ft) >> m.PreferredUnits.distance
         un = [U.Foot, U.Yard, U.Meter, U.Inch][i % 4] if p.get("wind_units", True) else U.Foot
         return un(U.Foot(ft) >> un)
     winds = []
@@ -82,9 +85,12 @@ def build_shot(p: Dict[str, Any]):
         if (i + len(p["winds"])) % 2:
             # a Wind object that had another speed / direction / end first, was looked at (vector, until-distance), and was then
             # re-assigned in place: what counts is what it says when the shot is fired
-            wo = m.Wind(U.FPS(w[0] + 7.0), U.Degree(w[1] + 33.0), until(i, w[2] * 0.5 + 10.0))
+            wo = m.Wind(U.FPS(w[0] + 7.0), U.Degree(w[1] + 33.0), U.Foot(w[2] * 0.5 + 10.0))
             _ = (wo.vector, wo.until_distance >> U.Foot)
-            wo.velocity, wo.direction_from, wo.until_distance = U.FPS(w[0]), U.Degree(w[1]), until(i, w[2])
+            ud = until(i, w[2])
+            if not hasattr(ud, "raw_value"):
+                ud = m.PreferredUnits.distance(ud)       # (attributes hold quantities: a bare number is only read by the constructor)
+            wo.velocity, wo.direction_from, wo.until_distance = U.FPS(w[0]), U.Degree(w[1]), ud
         else:
             wo = m.Wind(U.FPS(w[0]), U.Degree(w[1]), until(i, w[2]))
         winds.append(wo)
